@@ -27,9 +27,9 @@ NOT_COVERED = [
     'TOC-only packets emitted when the byte budget is below 3 bytes (opus_encoder.c:1267-1333) carry the mode/bandwidth/'
     'channel bits of the PREVIOUS frame state; only their duration is proved (honour_duration); they hold no coded audio '
     'and are treated like DTX packets by the honour clauses',
-    'multistream/projection encode: the per-stream state after an encode call is adopted from the implementation (rate '
-    'allocation and the surround overrides of bandwidth/mode/channels are not modelled; ranges, common application and '
-    'stream order of `first` are monitored); the honour clauses are proved and searched on single-stream encoders only',
+    'multistream/projection encode: the settings the multistream layer writes into the streams are modelled (msPrep/msPre2) '
+    'and tied; the rate allocation itself and each stream\'s encode are oracles / adopted; the honour clauses are proved and '
+    'searched on single-stream encoders only',
     'OPUS_SET_DNN_BLOB / DRED / OSCE requests (not compiled in this configuration); opus_custom_* API; '
     'OPUS_PROJECTION_GET_DEMIXING_MATRIX payload bytes (only size/pointer validation is modelled)',
     'projection decoder creation arguments (its ctl is covered: identical to the multistream decoder ctl)',
@@ -48,16 +48,16 @@ REQUIRED_THEOREMS = ['OpusProps.C11.' + n for n in (
     'set_get', 'set_get_decoder', 'set_get_multistream', 'bandwidth_reported_after_frame',
     'reject_unchanged', 'application_locked_after_first_frame', 'reject_unchanged_decoder',
     'reject_unchanged_multistream', 'reject_unchanged_ms_decoder',
-    'constants_agree', 'ctl_inv', 'encode_never_changes_settings', 'ctl_inv_decoder', 'ctl_inv_multistream', 'create_rejects', 'create_rejects_multistream', 'create_rejects_surround',
+    'constants_agree', 'ctl_inv', 'encode_never_changes_settings', 'ctl_inv_decoder', 'ctl_inv_multistream', 'ms_encode_keeps_inv', 'create_rejects', 'create_rejects_multistream', 'create_rejects_surround',
     'create_rejects_projection', 'set_get_projection', 'reject_unchanged_projection',
     'frame_size_select_spec', 'int_ranges', 'honour_duration', 'honour_channels', 'honour_channels_midstream',
     'honour_bandwidth', 'lowdelay_celt_only', 'short_frames_celt_only', 'encode_keeps_inv')]
 UNPROVED = [
     'int ranges of the decision chain proper need no lemma (comparisons only); the SILK/CELT rate computations that '
     'follow the chain (compute_equiv_rate etc.) are DSP oracles, outside this model',
-    'MsInv after opus_multistream_encode: proved for creation and every ctl request; that a multistream encode call keeps the '
-    'per-stream ranges, one common application and "no stream has coded a frame before the first stream" is monitored '
-    'after every call by suite ctl-rand (CONTRACT(ms-*)), not proved',
+    'MsInv.firstHead (no stream has coded a frame before stream 0) after opus_multistream_encode is a monitored contract, '
+    'not a theorem: the rate/byte allocation that decides which streams are starved is not modelled (and the contract is '
+    'violated by the code in CBR at low rates with frames >= 40 ms: defect D5)',
     'projection DEcoder creation arguments: modelled through the multistream decoder only',
 ]
 LEVEL_TEXT = ('proof of the modelled chain: every ctl request of encoder/decoder/multistream/projection objects as a state '
@@ -103,6 +103,7 @@ def ties(ctx):
     out.append(common.run_tie('ctl-grid', [h, 'grid', '0' if q else '1'], env=_ENV))
     out.append(common.run_tie('ctl-rand', [h, 'rand', str(ctx.seed), '3000' if q else '40000'], env=_ENV))
     out.append(common.run_tie('ctl-chain', [h, 'chain', str(ctx.seed), '2000' if q else '25000'], env=_ENV))
+    out.append(common.run_tie('ctl-msstarve', [h, 'msstarve', str(ctx.seed), '1500' if q else '25000'], env=_ENV))
     out.append(common.run_tie('ctl-reapp', [h, 'reapp', str(ctx.seed), '1500' if q else '20000'], env=_ENV))
     out.append(common.run_tie('ctl-honour', [h, 'honour', str(ctx.seed), '6000' if q else '80000'], env=_ENV))
     return out
@@ -445,6 +446,7 @@ def search(ctx):
     seen = set()
     runs = [[h, 'forceauto'], [h, 'grid', '0' if ctx.quick else '1'], [h, 'rand', str(ctx.seed + 1000), '2000' if ctx.quick else '20000'],
             [h, 'reapp', str(ctx.seed + 1000), '1500' if ctx.quick else '20000'],
+            [h, 'msstarve', str(ctx.seed + 1000), '1000' if ctx.quick else '15000'],
             [h, 'chain', str(ctx.seed + 1000), '1000' if ctx.quick else '10000'],
             [h, 'create', '0' if ctx.quick else '1']]
     for cmd in runs:
